@@ -217,8 +217,8 @@ Proof.
   unfold cd_negfpsirt, F_C, R_J. unfold_evalR. field. lra.
 Qed.
 
-Lemma guards_shape : guards_shape_ok = true.
-Proof. vm_compute. reflexivity. Qed.
+(* guards_shape_ok = true is checked in Props/Properties_C20.v itself (vm_compute; reflexivity on the regenerated texts), so that
+   a changed guard fails exactly that theorem and nothing else *)
 
 Lemma edl_readouts_all : forall la tk q A g, A * g <> 0 ->
   let L := ln 10 in
